@@ -18,7 +18,7 @@ func HC09_Generic() {
 	mp := NewMap[hRel](w)
 	ex := NewExchange(w).Adds(T1[hZ]()...).Removes(T1[hX]()...)
 	onlyX := ecs.All(b.ids[0]).Exclusive()
-	k := vChoice("entry", 20)
+	k := vChoice("entry", 23)
 	call := func() {
 		switch k {
 		case 0:
@@ -63,8 +63,15 @@ func HC09_Generic() {
 			ex.Exchange(b.ents[0])
 		case 18:
 			ex.NewEntity()
-		default:
+		case 19:
 			ex.ExchangeBatch(&onlyX)
+		case 20: // re-target to the current target: still a structural call
+			mp.SetRelation(b.ents[4], b.p1)
+		case 21:
+			rf := ecs.NewRelationFilter(ecs.All(b.ids[3]), b.p1)
+			mp.SetRelationBatch(&rf, b.p1)
+		default: // an exchange that adds and removes nothing
+			NewExchange(w).Exchange(b.ents[0])
 		}
 	}
 	f := NewFilter1[hX]()
